@@ -604,6 +604,7 @@ func constStringOf(p *Prog, pkg, name string) string {
 }
 
 var c18Canaries = []Canary{
+	{Name: "r4-redirect-drops-body", ExpectKey: "C18.R7#redirect:carries-Body", Edits: []Edit{{File: "lfshttp/client.go", Find: "\tnewReq.Body = req.Body\n", Repl: "\tif req.Method != \"POST\" {\n\t\tnewReq.Body = req.Body\n\t}\n"}}},
 	{Name: "rename-operation-tag", ExpectKey: "C18.R1#batchRequest:required(operation)", Edits: []Edit{{File: "tq/api.go", Find: "`json:\"operation\"`", Repl: "`json:\"op\"`"}}},
 	{Name: "size-renamed", ExpectKey: "C18.R1", Edits: []Edit{{File: "tq/transfer.go", Find: "	Size          int64        `json:\"size\"`", Repl: "	Size          int64        `json:\"length\"`"}}},
 	{Name: "path-in-request-objects", ExpectKey: "C18.R2#batch-objects:fields-set", Edits: []Edit{{File: "tq/transfer_queue.go", Find: "		transfers = append(transfers, &Transfer{Oid: t.Oid, Size: t.Size, Missing: t.Missing})", Repl: "		transfers = append(transfers, &Transfer{Oid: t.Oid, Size: t.Size, Missing: t.Missing, Path: t.Path})"}}},
